@@ -2,9 +2,24 @@ package config
 
 import (
 	"fmt"
+	"regexp"
 
 	uuid "github.com/gofrs/uuid/v5"
+	"gopkg.in/robfig/cron.v2"
 )
+
+// zeroStepRe matches a crontab field with a zero step ("*/0", "1-5/00").
+var zeroStepRe = regexp.MustCompile(`/0+([^0-9]|$)`)
+
+// ParseCrontab checks crontab syntax. A zero step is rejected here because
+// cron.Parse never returns for it (endless loop in robfig/cron.v2).
+func ParseCrontab(crontab string) error {
+	if zeroStepRe.MatchString(crontab) {
+		return fmt.Errorf("step should be a positive number: %s", crontab)
+	}
+	_, err := cron.Parse(crontab)
+	return err
+}
 
 func ConvertFloatForBinding(value interface{}, bindingName string) (*float64, error) {
 	if value == nil {
